@@ -5,6 +5,9 @@
   the client-level reachability `ReachableC` (inputs as a harness/transport can produce them: a joining
   key is fresh and not the meta key, only attached clients are dropped), and quiescence: a reachable
   state whose panic flag is `none` has no pending task.
+  `CtlInv` holds in EVERY reachable realm (`Realm.Reachable.ctl`): the inputs `ReachableC` excludes — a `join`
+  under the meta key or a key in use, a `drop` of a key that names no attached client — are no-ops of the
+  model.  `ReachableC` is still what gives the queue invariant (`ReachableC.qreachable`).
 -/
 import Nexus.L2.Proofs.WpCMeta
 
@@ -94,35 +97,41 @@ theorem CtlInv.map_clients {r : Realm} (hc : CtlInv r) (f : Session → Session)
   intro j hj
   exact (isClient_congr (isClient_map (r := r) f hf) j).mpr (hc.ending j hj)
 
-theorem CtlInv.stepOp {r : Realm} (hc : CtlInv r) (op : Op) (hop : OpC r op) : CtlInv (r.stepOp op) := by
-  have hk : OpK op := hop.opK hc.safe
+/-- every external input preserves the control invariant: a `join` under a key in use (or the meta
+    session's) and a `drop` of a key that names no attached client are no-ops of the model -/
+theorem CtlInv.stepOp' {r : Realm} (hc : CtlInv r) (op : Op) : CtlInv (r.stepOp op) := by
   cases op with
   | join k isLocal details roles cap =>
-    refine ⟨hc.safe.stepOp _ hk, ?_, ?_⟩
+    refine ⟨hc.safe.stepOp _, ?_, ?_⟩
     · rw [stepOp_join]
+      split
+      · exact hc.ending
       intro j hj
       obtain ⟨c, hcm, e⟩ := hc.ending j hj
       exact ⟨c, List.mem_append_left _ hcm, e⟩
-    · rw [stepOp_join]; exact hc.defBusy
+    · rw [stepOp_join]; split <;> exact hc.defBusy
   | msg k m =>
     rw [stepOp_msg]
     exact hc.taskAct (runTask_act hc.safe (.inMsg k m) trivial)
   | buffer k => rw [stepOp_buffer]; exact hc.map_clients _ (fun c => by split <;> rfl) r.ghosts
   | drop k =>
-    refine ⟨hc.safe.stepOp _ hk, ?_, ?_⟩
-    · rw [stepOp_drop]
-      split
-      · exact hc.ending
-      · intro j hj
+    refine ⟨hc.safe.stepOp _, ?_, ?_⟩
+    · rcases stepOp_drop_cases r k with e | ⟨hop, _, e⟩
+      · rw [e]; exact hc.ending
+      · rw [e]
+        intro j hj
         rcases List.mem_append.mp hj with hj | hj
         · exact hc.ending j hj
         · rw [List.mem_singleton.mp hj]; exact hop
     · rw [stepOp_drop]
-      split <;> exact hc.defBusy
+      split <;> (try split) <;> exact hc.defBusy
   | stall k => rw [stepOp_stall]; exact hc.map_clients _ (fun c => by split <;> rfl) r.ghosts
   | resume k => rw [stepOp_resume]; exact hc.map_clients _ (fun c => by split <;> rfl) _
   | tick ms => exact hc
-  | rnd n => exact ⟨hc.safe.stepOp _ hk, hc.ending, hc.defBusy⟩
+  | rnd n => exact ⟨hc.safe.stepOp _, hc.ending, hc.defBusy⟩
+
+theorem CtlInv.stepOp {r : Realm} (hc : CtlInv r) (op : Op) (_hop : OpC r op) : CtlInv (r.stepOp op) :=
+  hc.stepOp' op
 
 theorem CtlInv.timerDue {r : Realm} (hc : CtlInv r) (t : Timer) : CtlInv (r.timerDue t) := by
   have h := eff_timerDue (P := fun _ => False) (Q := fun _ => False) r t
@@ -251,14 +260,27 @@ theorem CtlInv.flush {r : Realm} (hc : CtlInv r) : CtlInv r.flush.2 := by
   obtain ⟨f1, _, f3, f4, f5, _⟩ := flush_ctl r
   exact hc.congr hc.safe.flush f1 f3 f5 f4
 
-theorem CtlInv.step {r : Realm} (hi : RealmInv r) (hp : FuelOnly r.panic) (hc : CtlInv r) (op : Op) (hop : OpC r op) :
+theorem CtlInv.step' {r : Realm} (hi : RealmInv r) (hp : FuelOnly r.panic) (hc : CtlInv r) (op : Op) :
     CtlInv (r.step op).2 := by
   by_cases ht : ∃ ms, op = .tick ms
   · obtain ⟨ms, rfl⟩ := ht
     rw [step_tick]
     exact (CtlInv.advance _ _ hi hp hc).flush
   · rw [step_of_not_tick r op (fun ms e => ht ⟨ms, e⟩)]
-    exact (CtlInv.drain _ (hc.stepOp op hop)).flush
+    exact (CtlInv.drain _ (hc.stepOp' op)).flush
+
+theorem CtlInv.step {r : Realm} (hi : RealmInv r) (hp : FuelOnly r.panic) (hc : CtlInv r) (op : Op) (_hop : OpC r op) :
+    CtlInv (r.step op).2 := CtlInv.step' hi hp hc op
+
+/-- every reachable realm satisfies the control invariant: the meta session is no client and is never
+    ending, every key in `ending` is the key of an attached client, every deferred departure belongs to
+    a session whose handler is in the yield retry loop — no hypothesis on the inputs -/
+theorem _root_.Nexus.L2.Realm.Reachable.ctl {cfg : Config} {r : Realm} (h : Realm.Reachable cfg r) : CtlInv r := by
+  induction h with
+  | init h =>
+    obtain ⟨hm, hd, he⟩ := create_metaSafe h
+    exact ⟨hm, (by rw [he]; intro j hj; cases hj), (by rw [hd]; intro d hd'; cases hd')⟩
+  | step op hr ih => exact CtlInv.step' hr.inv.1 hr.inv.2 ih op
 
 /-- realm states reachable by inputs as a transport / the harness can produce them -/
 inductive ReachableC (cfg : Config) : Realm → Prop
@@ -270,12 +292,7 @@ theorem ReachableC.reachable {cfg : Config} {r : Realm} (h : ReachableC cfg r) :
   | init h => exact .init h
   | step op _ _ ih => exact .step op ih
 
-theorem ReachableC.ctl {cfg : Config} {r : Realm} (h : ReachableC cfg r) : CtlInv r := by
-  induction h with
-  | init h =>
-    obtain ⟨hm, hd, he⟩ := create_metaSafe h
-    exact ⟨hm, (by rw [he]; intro j hj; cases hj), (by rw [hd]; intro d hd'; cases hd')⟩
-  | step op hr hop ih => exact ih.step hr.reachable.inv.1 hr.reachable.inv.2 op hop
+theorem ReachableC.ctl {cfg : Config} {r : Realm} (h : ReachableC cfg r) : CtlInv r := h.reachable.ctl
 
 theorem ReachableC.reachableK {cfg : Config} {r : Realm} (h : ReachableC cfg r) : ReachableK cfg r := by
   induction h with
